@@ -120,6 +120,26 @@ func TestReplaySearchTrace(t *testing.T) {
 						res = e.Execute(dctx, kb)
 					}()
 					where := fmt.Sprintf("scenario #%d MaxCycle=%d Arr=%v strict=%v rules:\n%s trace=%v result=%v log=%v", si, maxCycle, arr, strict, grl.String(), rec.evs, res, f.Log)
+					// a condition that fails to evaluate on the initial facts (error or panic): with ReturnErrOnFailedRuleEvaluation the
+					// first cycle already returns an error naming the rule and nothing fires; without it the run goes on
+					if strict {
+						f0 := &replayTraceFact{Arr: arr}
+						var failing []string
+						for _, r := range sc.rules {
+							if _, ok := r.cond(f0); !ok {
+								failing = append(failing, r.name)
+							}
+						}
+						if len(failing) > 0 {
+							named := false
+							for _, n := range failing {
+								named = named || (res != nil && strings.Contains(res.Error(), n))
+							}
+							if res == nil || !named || len(f.Log) > 0 {
+								t.Fatalf("CONFIRMED: the condition of rule %v fails to evaluate on the initial facts and ReturnErrOnFailedRuleEvaluation is set, but Execute returned %v (want an error naming the rule) after actions %v (want none)\n%s", failing, res, f.Log, where)
+							}
+						}
+					}
 					if msg := replayCheckTrace(sc.rules, rec.evs, res, maxCycle, strict, f); msg != "" {
 						t.Fatalf("CONFIRMED: %s\n%s", msg, where)
 					}
